@@ -383,6 +383,10 @@ Proof.
     destruct (negb _); [intro E; injection E as <- _; split; assumption|].
     unfold dd_oneshot_frame. rewrite Hn. rewrite dd_select_noset by exact Hn.
     intro E; injection E as <- _. split; assumption.
+  - (* ODDecR *) revert E. unfold dctx_dec_raw, dctx_dec_raw_gen. destruct Hsp as [Hu Hn].
+    destruct (negb _); [intro E; injection E as <- _; split; assumption|].
+    cbv zeta. rewrite dd_select_noset by exact Hn.
+    intro E; injection E as <- _. split; assumption.
 Qed.
 
 (* single use over every history: once the prefix has been handed to a frame, no later frame gets a dictionary until the next
@@ -447,6 +451,10 @@ Proof.
     destruct (negb _); [intro E; injection E as <- _; repeat split; assumption|].
     unfold dd_oneshot_frame. rewrite Hn. rewrite dd_select_noset by exact Hn.
     intro E; injection E as <- _. repeat split; assumption.
+  - revert E. unfold dctx_dec_raw, dctx_dec_raw_gen. destruct Hh as (Hu & Hk & Hn).
+    destruct (negb _); [intro E; injection E as <- _; repeat split; assumption|].
+    cbv zeta. rewrite dd_select_noset by exact Hn.
+    intro E; injection E as <- _. repeat split; assumption.
 Qed.
 
 Lemma d_dict_sticky_l : forall ops w o k,
@@ -464,7 +472,7 @@ Lemma d_reset_dict_rules_l : forall d dir,
   (is_session dir = true -> is_params dir = false -> d_dict (fst (dctx_reset d dir)) = d_dict d)
   /\ (is_params dir = true -> (d_stage d = S_init \/ is_session dir = true) ->
       dd_kind (d_dict (fst (dctx_reset d dir))) = DK_none /\ dd_uses (d_dict (fst (dctx_reset d dir))) = 0
-      /\ dd_set (d_dict (fst (dctx_reset d dir))) = dd_set (d_dict d)).
+      /\ dd_set (d_dict (fst (dctx_reset d dir))) = None).
 Proof.
   intros d dir. split.
   - intros Hs Hp. rewrite (d_reset_session_keeps_parameters_l d dir Hs Hp). reflexivity.
@@ -621,6 +629,9 @@ Proof.
     intro E; injection E as <- _. apply d_multi_intro; assumption.
   - revert E. unfold dctx_dec_using, dctx_dec_using_gen. rewrite Hfm, Hm. cbn [Z.eqb Pos.eqb negb].
     unfold dd_oneshot_frame. destruct (select_multi (d_dict (get_d w o0)) (frame_fid f) Hx (frame_fid_ok f)) as (A & _).
+    intro E; injection E as <- _. apply d_multi_intro; assumption.
+  - revert E. unfold dctx_dec_raw, dctx_dec_raw_gen. rewrite Hfm, Hm. cbn [Z.eqb Pos.eqb negb]. cbv zeta.
+    destruct (select_multi (d_dict (get_d w o0)) (frame_fid f) Hx (frame_fid_ok f)) as (A & _).
     intro E; injection E as <- _. apply d_multi_intro; assumption.
 Qed.
 
